@@ -42,6 +42,9 @@ def r1_ranges(ctx, chk, rule="C15.1"):
     sx = SymX(ctx, f).run()
     params = list(f.params)
     missing = [p for p in list(INT_PARAMS) + PROB_PARAMS if p not in params]
+    if missing and len(params) >= len(INT_PARAMS) + len(PROB_PARAMS):
+        chk.undecided(rule, f.where(), "check_input takes %s: the documented parameter names %s are not among them (renamed?), the range table cannot be matched" % (params, missing))
+        return
     if missing:
         chk.violation(rule, f.where(), "check_input no longer receives %s: these parameters are not validated" % missing, expected=sorted(list(INT_PARAMS) + PROB_PARAMS),
                       found=params, construct="check_input parameters")
@@ -210,7 +213,8 @@ def r3_reproducible(ctx, chk, rule="C15.3"):
         chk.violation(rule, f.where(), "%d random.seed calls in gen_rnd_board" % len(seeds), expected="exactly one random.seed(seed)", found=len(seeds), construct="gen_rnd_board seed calls")
         return
     s = seeds[0]
-    if not (len(s.args) == 1 and isinstance(s.args[0], ast.Name) and s.args[0].id == f.params[0] and f.params[0] == "seed"):
+    if not (len(s.args) == 1 and isinstance(s.args[0], ast.Name) and s.args[0].id in f.params and (s.args[0].id == f.params[0] or "seed" in s.args[0].id)
+            and not any(isinstance(n, ast.Name) and isinstance(n.ctx, ast.Store) and n.id == s.args[0].id for n in walk_no_nested_defs(f.node))):
         chk.violation(rule, f.where(s), "the generator is seeded with `%s`, not with the seed parameter: the same parameters do not give the same board" % (src(s.args[0]) if s.args else "system entropy"),
                       expected="random.seed(seed)", found=src(s), construct="gen_rnd_board seed argument")
         return
